@@ -31,6 +31,8 @@ class ModelRun(object):
         self.stats = {'calls': 0, 'traps': 0, 'ooc': 0, 'indet': 0}
         self.hz = collections.Counter()
         self.call_hz = []        # per call step: set of hazard classes hit
+        self.ev = collections.Counter()
+        self.call_ev = []        # per call step: set of path events
         fimps = m.imported('func')
         self.host = [interp.HostFunc(i, m.types[imp[3]], self.trace, imp[1]) for i, imp in enumerate(fimps)]
         self.fexports = [(n, i) for n, kd, i in m.exports if kd == 'func']
@@ -105,7 +107,7 @@ class ModelRun(object):
         if o == 'inst':
             _, k = op
             try:
-                inst = interp.Instance(m, self.imports_for(k), tag=k, hazards=self.hz)
+                inst = interp.Instance(m, self.imports_for(k), tag=k, hazards=self.hz, events=self.ev)
                 self.insts[k] = inst
                 self.flush_trace()
                 self.lines.append('I ok')
@@ -121,6 +123,7 @@ class ModelRun(object):
             self.stats['calls'] += 1
             inst.fuel = 200000
             self.hz.clear()
+            self.ev.clear()
             try:
                 res = inst.invoke(fidx, list(args))
                 self.flush_trace()
@@ -133,6 +136,7 @@ class ModelRun(object):
                 inst.depth = 0
                 del self.trace[:]
                 self.call_hz.append(frozenset(self.hz))
+                self.call_ev.append(frozenset(self.ev))
             return 'C %d %d%s' % (k, e, ''.join(' %x' % a for a in args))
         if o == 'mem':
             _, k = op
@@ -222,7 +226,7 @@ class Built(object):
         if r.returncode != 0:
             self.error = ('compile', r.stderr.decode(errors='replace')[-6000:])
 
-    def run(self, script_lines, timeout=120):
+    def run(self, script_lines, timeout=20):
         return cexec.run_driver(self.dir, script_lines, timeout=timeout)
 
     def close(self):
